@@ -361,6 +361,8 @@ def check_var(rec, idx, heavy=True):
     dof = (1, 3, 11)[mix(idx, 4, 3)]
     noise = np.array([0.45, 0.8]) if mix(idx, 5, 2) == 0 or ev.shape[0] == 1 else \
         np.array([np.full(ev.shape[0], 0.45), np.full(ev.shape[0], 0.8)])
+    if noise.ndim == 2 and ev.ndim == 2 and mix(idx, 8, 2) == 1:
+        noise[:, mix(idx, 9, ev.shape[0])] = np.nan      # a sample whose noise ceiling could not be computed
 
     def build(p=None):
         if p is None:
@@ -386,14 +388,24 @@ def check_var(rec, idx, heavy=True):
         findings.append((f'C06/b/raises/{sh}/Result/{type(e).__name__}',
                          f'Result(...) raises {type(e).__name__}: {str(e)[:160]}', case))
         return findings, nev
+    bad_shape = False
     for name, got, e, shp in (('model_var', r.model_var, e_mv, (k,)), ('model_var', r.get_model_var(), e_mv, (k,)),
                               ('diff_var', r.diff_var, e_dv, (npairs,)),
                               ('noise_ceil_var', r.noise_ceil_var, e_ncv, (k, 2))):
         m = arr_close(got, e, shp)
         if m:
             findings.append((f'C06/b/{name}/{sh}/Result', f'Result.{name}: {m}', case))
+            if m.startswith('shape'):
+                bad_shape = True
     sem = np.asarray(r.get_sem(), dtype=float)
-    if sem.shape != (k,) or not np.all(sem >= 0):
+    if sem.shape != (k,):
+        findings.append((f'C06/e/sem/shape/{sh}', f'get_sem() has shape {sem.shape} for {k} models', case))
+        bad_shape = True
+    if bad_shape:
+        # the Result does not even have one entry per model / pair: every further accessor is meaningless
+        # (reported above with its own key; nothing below may index into these arrays)
+        return findings, nev
+    if not np.all(sem >= 0):
         findings.append(('C06/e/sem/negative', f'get_sem() = {sem.tolist()}', case))
     else:
         for a in range(k):
@@ -456,6 +468,14 @@ def check_means(rec, idx, heavy=True):
     S = ev.shape[0]
     per_sample_nc = cv == 2 and mix(idx, 5, 2) == 1
     noise = np.array([np.full(S, 0.45), np.full(S, 0.8)]) if per_sample_nc else np.array([0.45, 0.8])
+    if per_sample_nc and ev.ndim == 2:
+        # the evaluators write NaN into the noise ceiling of every sample they mark invalid (arrays with fold
+        # axes come with per-repetition ceilings in the library; the synthetic 2 x N pairing stays NaN-free)
+        dead = np.isnan(per_sample(ev)).all(axis=1)
+        if dead.any() and not dead.all():
+            noise[:, dead] = np.nan
+        elif S >= 2 and mix(idx, 8, 2) == 1:
+            noise[:, mix(idx, 9, S)] = np.nan
     var = np.arange(1, k + 1) * 0.03
     dof = (2, 7)[mix(idx, 4, 2)]
 
@@ -653,10 +673,22 @@ def check_eval_fixed(seed):
     model_v = rng.integers(1, 10, size=(k, nvec)).astype(float)
     case = {'seed': int(seed), 'method': method, 'data': data_v.tolist(), 'models': model_v.tolist()}
     ms = [ModelFixed(f'm{i}', model_v[i]) for i in range(k)]
+    # the same subject stack three ways: as built; resampled with replacement by its 'index' descriptor
+    # (subsample / bootstrap_sample_rdm leave DUPLICATED index values); built with duplicated index values.
+    # The per-subject evaluations are n_rdm columns in every case: n_rdm - 1 degrees of freedom.
+    variant = (seed // len(METHODS)) % 3
+    data = RDMs(data_v)
+    if variant == 1 and n_rdm >= 3:
+        pick = np.sort(rng.integers(0, n_rdm - 1, size=n_rdm))      # at least one value twice
+        data = data.subsample('index', pick.tolist())
+    elif variant == 2 and n_rdm >= 3:
+        data = RDMs(data_v, rdm_descriptors={'index': np.sort(rng.integers(0, n_rdm - 1, size=n_rdm)).tolist()})
+    case['index'] = [int(x) for x in data.rdm_descriptors['index']]
+    n_rdm = data.n_rdm
     with warnings.catch_warnings(), np.errstate(all='ignore'):
         warnings.simplefilter('ignore')
         try:
-            r = eval_fixed(ms if (k > 1 or seed % 2) else ms[0], RDMs(data_v), method=method)
+            r = eval_fixed(ms if (k > 1 or seed % 2) else ms[0], data, method=method)
             nev += 1
         except Exception as e:  # noqa: BLE001
             return [(f'C06/a/raises/eval_fixed/{type(e).__name__}', f'eval_fixed raises {e}', case)], nev, None
@@ -895,6 +927,30 @@ def probe_model_nan(seed):
     return same, differs, viol
 
 
+def raised_in_library(e):
+    """True if the innermost frames of the traceback are rsatoolbox code (or numpy/scipy called from it), i.e. the
+    exception was raised by a library call the harness made, not by the harness's own arithmetic"""
+    import traceback
+    frames = traceback.extract_tb(e.__traceback__)
+    last_own = max((i for i, f in enumerate(frames) if '/verif/harness/' in f.filename), default=-1)
+    return any('/rsatoolbox/' in f.filename for f in frames[last_own + 1:])
+
+
+def checked(fn, rec, idx, heavy):
+    try:
+        return fn(rec, idx, heavy)
+    except Exception as e:  # noqa: BLE001
+        if not raised_in_library(e):
+            raise                          # the harness itself failed: machinery error (exit 2)
+        import traceback
+        where = traceback.extract_tb(e.__traceback__)[-1]
+        kind = rec['inp']['kind']
+        cls = SHAPE[rec['inp']['shape']] if kind == 'var' else kind
+        return [(f'C06/raises/{cls}/{type(e).__name__}',
+                 f'{type(e).__name__} from {where.name} ({where.filename.split("/")[-1]}:{where.lineno}): {str(e)[:140]}',
+                 {'inp': rec['inp'], 'expected': rec['exp']})], 1
+
+
 def replay_chunk(args):
     """replay a chunk of emitted JSON lines; returns counters and findings grouped by key"""
     base, lines, heavy_mod, means_mod, seed = args
@@ -912,18 +968,18 @@ def replay_chunk(args):
         hm = means_mod if kind == 'means' else heavy_mod
         heavy = hm <= 1 or mix(idx + seed, 0, hm) == 0
         if kind == 'var':
-            f, n = check_var(rec, idx + seed, heavy)
+            f, n = checked(check_var, rec, idx + seed, heavy)
             i = rec['inp']
             stats['psd' if rec['psd'] else 'nonpsd'] += 1
             nt = (i['k'] >= 2 or i['shape'] == 3) and np.any(np.asarray(i['cov']) != 0)
             sk = f"{SHAPE[i['shape']]}/{'nc' if i['nc'] else 'plain'}"
             stats['shapes'][sk] = stats['shapes'].get(sk, 0) + 1
         elif kind == 'means':
-            f, n = check_means(rec, idx + seed, heavy)
+            f, n = checked(check_means, rec, idx + seed, heavy)
             flat = np.asarray(rec['inp']['ev']).reshape(-1)
             nt = np.any(flat == NAN) and np.any(flat != NAN)
         else:
-            f, n = check_fixed(rec, idx + seed, heavy)
+            f, n = checked(check_fixed, rec, idx + seed, heavy)
             nt = any(len(set(row)) > 1 for row in rec['inp']['base'])
         stats['n'] += 1
         stats[kind] += 1
